@@ -511,7 +511,10 @@ class TaskScenario(ScenarioData):
                                 dep_time_idx = self.project.dateToIdx(dep_time)
                                 # Skip gap_slots of working time
                                 working_slots = 0
-                                while working_slots < gap_slots:
+                                last_idx = self.project.dateToIdx(self.project["end"])
+                                # Stop at the end of the horizon: a bound out there leaves the
+                                # task unscheduled instead of indexing past the slot tables
+                                while working_slots < gap_slots and dep_time_idx <= last_idx:
                                     if self.isWorkingTime(dep_time_idx):
                                         working_slots += 1
                                     dep_time_idx += 1
